@@ -144,6 +144,26 @@ def snapshot(sheet):
             out.append(entry)
         return out
 
+    def links(rs, container, depth=0):
+        """who names whom as parent: part of the state a refused call has to leave alone"""
+        out = []
+        for r in rs:
+            row = [getattr(r, 'parentStyleSheet', None) is sheet, getattr(r, 'parentRule', None) is container]
+            for attr in ('style', 'selectorList', 'media'):
+                o = getattr(r, attr, None)
+                if o is not None:
+                    row.append(getattr(o, 'parentRule', None) is r)
+            st = getattr(r, 'style', None)
+            if st is not None:
+                try:
+                    row.append([p.parent is st for p in st.getProperties(all=True)])
+                except Exception as e:
+                    row.append('EXC ' + type(e).__name__)
+            if type(r).__name__ in ('CSSMediaRule', 'CSSPageRule') and depth < 3:
+                row.append(links(r.cssRules, r, depth + 1))
+            out.append(row)
+        return out
+
     try:
         ns = sorted((k or '', v) for k, v in sheet.namespaces.items())
     except Exception as e:
@@ -152,11 +172,11 @@ def snapshot(sheet):
         text = sheet.cssText
     except Exception as e:
         text = 'EXC ' + type(e).__name__
-    return {'cssText': text, 'rules': rules(sheet.cssRules), 'namespaces': ns, 'encoding': sheet.encoding}
+    return {'cssText': text, 'rules': rules(sheet.cssRules), 'namespaces': ns, 'encoding': sheet.encoding, 'links': links(sheet.cssRules, None)}
 
 
 def snap_diff(a, b):
-    for k in ('cssText', 'namespaces', 'encoding', 'rules'):
+    for k in ('cssText', 'namespaces', 'encoding', 'rules', 'links'):
         if a[k] != b[k]:
             return {'what': k, 'before': str(a[k])[:300], 'after': str(b[k])[:300]}
     return None
@@ -189,7 +209,7 @@ def random_op(rng, sheet, focus=None):
     if k == 'insert-list':
         # a CSSRuleList of 2-3 rule objects, into the sheet or into a nested rule list
         where = 'sheet' if rng.random() < 0.5 else rng.randrange(4)
-        members = [[rng.choice(['style', 'style', 'media', 'comment', 'page', 'fontface', 'import', 'unknown', 'margin', 'namespace']), rng.randrange(6)] for _ in range(rng.randint(2, 3))]
+        members = [[rng.choice(['style', 'style', 'media', 'comment', 'page', 'fontface', 'import', 'unknown', 'margin', 'namespace', 'foreign-ns', 'foreign-ns']), rng.randrange(6)] for _ in range(rng.randint(2, 3))]
         return [k, where, members, rng.randint(0, n if where == 'sheet' else 2)]
     if k == 'sheet-text':
         return [k, rng.choice(SEEDS + ['s1{top:0} @import "late.css";', 'a{} b{} @namespace late "u";', 'zz|a{top:0}', 's1{top:0}@charset "ascii";'])]
@@ -356,7 +376,12 @@ class Walk:
                     target = cs[where % len(cs)]
                 rl = c.css.CSSRuleList()
                 for kind, ti in members:
-                    rl.insert(len(rl), make_rule(c, kind, ti))  # (append is disabled on a bare CSSRuleList)
+                    if kind == 'foreign-ns':
+                        # a rule resolved in another sheet, using a namespace this sheet may not declare
+                        m = c.parseString('@namespace zz "urn:zz";@namespace n1 "urn:n1";zz|q%d, n1|r{top:0}' % ti).cssRules[2]
+                    else:
+                        m = make_rule(c, kind, ti)
+                    rl.insert(len(rl), m)  # (append is disabled on a bare CSSRuleList)
                 target.insertRule(rl, min(index, len(target.cssRules)))
             elif k == 'encoding':
                 sheet.encoding = op[1]
